@@ -81,7 +81,7 @@ def collect(res, rng, nruns, max_cases, kind="sh", integ="exp"):
         hopsteps = [i for i, s_ in enumerate(steps) if s_["before"][3] != s_["after"][3]]
         if kind == "cum":
             hopsteps += [i for i, s_ in enumerate(steps) if s_["cum"][1] != s_["cum_after"][1]][:4]
-        picks = sorted(set(picks + hopsteps[:5]))
+        picks = sorted(set(picks + hopsteps[:5] + [h_ + 1 for h_ in hopsteps[:3] if h_ + 1 < len(steps)]))      # also the pass right after a hop (its previous velocity is the rescaled one)
         for i in picks:
             s_ = steps[i]
             (x, v, rho, a, t), (x1, v1, rho1, a1, t1, hop) = s_["before"], s_["after"]
@@ -177,7 +177,10 @@ def collect_af(res, rng, nruns, max_cases, aug="exp"):
             pass
         hopsteps = [i for i, s_ in enumerate(steps) if s_["before"][3] != s_["after"][3]]
         collsteps = [i for i, s_ in enumerate(steps) if s_["coll"]]
-        picks = sorted(set([0, 1] + rng.sample(range(len(steps)), min(len(steps), 5)) + hopsteps[:3] + collsteps[:2] + ([reentry, reentry + 1] if reentry else []))) if steps else []
+        # the pass right after an accepted hop and right after a collapse is always sampled: delR is then advanced with the propagator of a
+        # pass whose velocity was rescaled (or whose moments were reset) in between
+        picks = sorted(set([0, 1] + rng.sample(range(len(steps)), min(len(steps), 5)) + hopsteps[:3] + [h_ + 1 for h_ in hopsteps[:3]] + collsteps[:2] + [c_ + 1 for c_ in collsteps[:2]]
+                           + ([reentry, reentry + 1] if reentry else []))) if steps else []
         if reentry and reentry < len(steps): res.count("fullstep-afssh/first-pass-after-re-entry")
         for i in picks:
             if i >= len(steps): continue
